@@ -58,10 +58,9 @@ class Roles:
             if f.parent is None or not f.is_async:
                 continue
             for n in walk_local(f.node):
-                if isinstance(n, ast.Await) and isinstance(n.value, ast.Call) \
-                        and isinstance(n.value.func, ast.Attribute) and n.value.func.attr == 'co_run' \
-                        and isinstance(n.value.func.value, ast.Name):
-                    wraps.append((f, n.value.func.value.id, n))
+                if isinstance(n, ast.Call) and isinstance(n.func, ast.Attribute) and n.func.attr == 'co_run' \
+                        and isinstance(n.func.value, ast.Name) and n.func.value.id not in self.prog.classes:
+                    wraps.append((f, n.func.value.id, n))
                     break
         if len(wraps) != 1:
             raise AnalysisError("window wrapper (nested coroutine awaiting <job>.co_run()): %d candidates"
@@ -153,11 +152,12 @@ class Roles:
             for n in walk_local(f.node):
                 if isinstance(n, ast.For) and isinstance(n.iter, ast.Attribute) and n.iter.attr == 'required' \
                         and isinstance(n.target, ast.Name):
+                    outer = n.iter.value.id if isinstance(n.iter.value, ast.Name) else None
                     for m in ast.walk(n):
                         if isinstance(m, ast.Call) and isinstance(m.func, ast.Attribute) \
-                                and m.func.attr == 'add' and isinstance(m.func.value, ast.Attribute) \
+                                and m.func.attr in ('add', 'update') and isinstance(m.func.value, ast.Attribute) \
                                 and isinstance(m.func.value.value, ast.Name) \
-                                and m.func.value.value.id == n.target.id:
+                                and m.func.value.value.id in (n.target.id, outer):
                             return m.func.value.attr, f
         raise AnalysisError("relation builder (for r in j.required: r.<attr>.add(j)) not found")
 
